@@ -314,7 +314,7 @@ def _cfg(case):
         kind, _, arg = budget_word.partition(":")
         p = [int(x) for x in arg.split(":") if x]
         if kind == "bucket":
-            budget = {"kind": "bucket", "max": p[0], "init": p[1] if len(p) > 1 else p[0], "cost": 1, "amount": 1}
+            budget = {"kind": "bucket", "max": p[0], "init": min(p[1], p[0]) if len(p) > 1 else p[0], "cost": 1, "amount": 1}   # the constructor clamps the initial balance to max_tokens
         elif kind == "aimd":
             budget = {"kind": "aimd", "min": p[0], "max": p[1], "dep": p[2], "wd": p[3], "q": p[4],
                       "init": p[1], "cost": p[3], "amount": p[2]}
